@@ -652,6 +652,57 @@ def r05_7(chk, tier, units=None, floor=200):
                              fn['n'], stack, bad[min(bad)], min(bad), len(bad) - 1), {'unguarded_uses': len(bad), 'first_lines': sorted(bad)[:10]}, fn['q'])
         chk.require(tot >= 50, 'R05.7: only %d stack uses found in %s' % (tot, header))
 
+def r05_8(chk, tier):
+    """Indices decoded from the input (taint sources of E7) that select an element of a container."""
+    from .. import taint as T
+    chk.rule('R05.8', 'input-derived index: an element access at(i)/[i] whose index comes from a decoded integer is dominated by the exact '
+                      'bounds rejection against size() of the same container (i >= c.size() rejected, or i < c.size() required)', floor=1)
+    n = 0
+    for unit, hdr in (('cbor', 'cbor_parser.hpp'), ('msgpack', 'msgpack_parser.hpp'), ('ubjson', 'ubjson_parser.hpp'), ('bson', 'bson_parser.hpp')):
+        facts = F.load([unit], tier)
+        if unit not in chk.units: chk.units.append(unit)
+        seen = set()
+        for fn in facts.functions:
+            if not fn['file'].endswith(hdr) or fn.get('body') is None or fn.get('dep') or (fn['file'], fn['l']) in seen: continue
+            seen.add((fn['file'], fn['l']))
+            tainted, _, _ = T.analyse(fn)
+            if not tainted: continue
+            g = None
+            for x in A.walk_no_lambda(fn['body']):
+                if x.get('k') not in A.CALLS: continue
+                nm = A.callee_name(x)
+                if x.get('k') == 'CXXOperatorCallExpr' and x.get('oop') == '[]': cont, idx = (x.get('args') or [None, None])[:2]
+                elif x.get('k') == 'CXXMemberCallExpr' and nm == 'at' and x.get('args'): cont, idx = x.get('obj'), x['args'][0]
+                else: continue
+                if cont is None or idx is None or not T.mentions_taint(idx, tainted): continue
+                ct = fn['_types'][(A.strip(cont, casts=True) or {}).get('t', 1) - 1]
+                if 'std::vector<' not in ct and 'std::basic_string<' not in ct and 'std::array<' not in ct and 'std::deque<' not in ct: continue
+                if g is None: g = C.CFG(fn['body']); chk.analysed(fn)
+                nd = g.node_of(x)
+                n += 1
+                ctext = A.text(A.strip(cont, casts=True))
+                ok = False; seen_tests = []
+                # variables the index was converted from
+                roots = set(y.get('id') for y in A.walk(idx) if y.get('k') == 'DeclRefExpr')
+                for y in A.walk_no_lambda(fn['body']):
+                    if y.get('k') == 'VarDecl' and y.get('id') in roots and y.get('init') is not None:
+                        roots |= set(z.get('id') for z in A.walk(y['init']) if z.get('k') == 'DeclRefExpr' and z.get('id') in tainted)
+                for a, lab, e in (g.guards(nd) if nd is not None else []):
+                    cmp_ = G.comparison(a)
+                    if not cmp_: continue
+                    op, l, r = cmp_
+                    for (q, sz, o) in ((l, r, op), (r, l, G.FLIP[op])):
+                        qs = A.strip(q, casts=True); ss = A.strip(sz, casts=True)
+                        if qs is None or ss is None or qs.get('k') != 'DeclRefExpr' or qs.get('id') not in roots: continue
+                        if ss.get('k') != 'CXXMemberCallExpr' or A.callee_name(ss) != 'size' or A.text(A.strip(ss.get('obj'), casts=True)) != ctext: continue
+                        seen_tests.append((o, bool(lab)))
+                        if (o == '>=' and lab is False) or (o == '<' and lab is True): ok = True
+                site = U.site(fn, 'index into %s' % ctext)
+                if ok: chk.ok('R05.8', site, {'line': x.get('l'), 'tests': seen_tests})
+                else: chk.fail('R05.8', site, fn['file'], x.get('l'), '%s: element %s of %s is selected by a value decoded from the input without the exact bounds rejection (dominating tests on it: %s)' % (
+                    fn['n'], A.text(idx), ctext, seen_tests or 'none'), {'tests': seen_tests}, fn['q'])
+    chk.require(n >= 1, 'R05.8: no input-derived index found in the binary parsers')
+
 def run(chk, tier, only_rule=None):
     chk.explanation = EXPLANATION
     chk.not_decided = NOT_DECIDED
@@ -663,3 +714,4 @@ def run(chk, tier, only_rule=None):
     r05_2(chk, tier)
     r05_6(chk, tier)
     r05_7(chk, tier)
+    r05_8(chk, tier)
